@@ -29,18 +29,26 @@ type cfg struct {
 	WTR     int // WriteThenReadDelay in ms
 	Stop    bool
 	Runners int
-	Fail    bool // compute fails (non-retry error) once version of R0 reaches 2
+	Fail    bool   // compute fails (non-retry error) once version of R0 reaches 2
+	Pre     string // items written one at a time by the main thread, each followed by quiescence, before the concurrent phase ("-" = none)
 }
 
 func (c cfg) name() string {
 	return fmt.Sprintf("shape=%s mode=%s nres=%d writers=%d writes=%d spawn=%t minint=%d wtr=%d stop=%t runners=%d fail=%t",
-		c.Shape, c.Mode, c.NRes, c.Writers, c.Writes, c.Spawn, c.MinInt, c.WTR, c.Stop, c.Runners, c.Fail)
+		c.Shape, c.Mode, c.NRes, c.Writers, c.Writes, c.Spawn, c.MinInt, c.WTR, c.Stop, c.Runners, c.Fail) + c.pre()
+}
+
+func (c cfg) pre() string {
+	if c.Pre == "" {
+		return ""
+	}
+	return " pre=" + c.Pre
 }
 
 func parse(s string) cfg {
 	var c cfg
-	s = strings.NewReplacer("shape=", "", "mode=", "", "nres=", "", "writers=", "", "writes=", "", "spawn=", "", "minint=", "", "wtr=", "", "stop=", "", "runners=", "", "fail=", "").Replace(s)
-	fmt.Sscan(s, &c.Shape, &c.Mode, &c.NRes, &c.Writers, &c.Writes, &c.Spawn, &c.MinInt, &c.WTR, &c.Stop, &c.Runners, &c.Fail)
+	s = strings.NewReplacer("shape=", "", "mode=", "", "nres=", "", "writers=", "", "writes=", "", "spawn=", "", "minint=", "", "wtr=", "", "stop=", "", "runners=", "", "fail=", "", "pre=", "").Replace(s)
+	fmt.Sscan(s, &c.Shape, &c.Mode, &c.NRes, &c.Writers, &c.Writes, &c.Spawn, &c.MinInt, &c.WTR, &c.Stop, &c.Runners, &c.Fail, &c.Pre)
 	return c
 }
 
@@ -252,6 +260,15 @@ func item(c cfg) *explore.Item {
 			runners = append(runners, rn)
 			rn.rr = reactive.NewRerunner(context.Background(), rn.compute, time.Duration(c.MinInt)*time.Millisecond, c.Spawn)
 		}
+		// chained history: reach a non-initial state (orphaned / re-used cached children, several generations of
+		// per-run resources) one settled step at a time, then explore the concurrent phase from there
+		for _, ch := range c.Pre {
+			rt.QuiesceWithin(time.Minute)
+			w.write(int(ch - '0'))
+		}
+		if c.Pre != "" {
+			rt.QuiesceWithin(time.Minute)
+		}
 		for wi := 0; wi < c.Writers; wi++ {
 			wi := wi
 			rt.Go(func() {
@@ -376,6 +393,15 @@ func c04configs(tier string) []cfg {
 	}
 	out = append(out, cfg{Shape: "after", Mode: "perrun", NRes: 1, Writers: 1, Writes: 1, Runners: 1})
 	out = append(out, cfg{Shape: "after", Mode: "perrun", NRes: 1, Writers: 1, Writes: 1, Runners: 1, Stop: true})
+	// from non-initial states: a cached child that was used, skipped by a later run and used again (cond: child c1 only
+	// while item 0 is odd); a purged cache; several generations of resources - then one concurrent write per item
+	for _, pre := range []string{"0", "00", "000", "0100"} {
+		out = append(out, cfg{Shape: "cond", Mode: "perrun", NRes: 2, Writers: 2, Writes: 1, Runners: 1, Pre: pre})
+	}
+	out = append(out, cfg{Shape: "purge", Mode: "perrun", NRes: 2, Writers: 2, Writes: 1, Runners: 1, Pre: "01"})
+	out = append(out, cfg{Shape: "twolevel", Mode: "perrun", NRes: 2, Writers: 2, Writes: 1, Runners: 1, Pre: "10"})
+	out = append(out, cfg{Shape: "twolevel", Mode: "strobe", NRes: 2, Writers: 2, Writes: 1, Runners: 1, Pre: "10"})
+	out = append(out, cfg{Shape: "shared", Mode: "perrun", NRes: 2, Writers: 2, Writes: 1, Runners: 1, Stop: true, Pre: "01"})
 	if tier == "thorough" {
 		for _, mode := range []string{"strobe", "perrun"} {
 			for _, shape := range []string{"direct", "cache", "twolevel"} {
@@ -401,6 +427,10 @@ func c08configs(tier string) []cfg {
 	}
 	out = append(out, cfg{Shape: "after", Mode: "perrun", NRes: 1, Writers: 1, Writes: 1, Runners: 1, Stop: true})
 	out = append(out, cfg{Shape: "after", Mode: "perrun", NRes: 1, Writers: 1, Writes: 2, Runners: 1})
+	for _, pre := range []string{"00", "000", "0010"} {
+		out = append(out, cfg{Shape: "cond", Mode: "perrun", NRes: 2, Writers: 2, Writes: 1, Runners: 1, Pre: pre})
+	}
+	out = append(out, cfg{Shape: "purge", Mode: "perrun", NRes: 2, Writers: 1, Writes: 2, Runners: 1, Pre: "10"})
 	if tier == "thorough" {
 		for _, shape := range []string{"cache", "twolevel", "cond", "purge"} {
 			out = append(out, cfg{Shape: shape, Mode: "perrun", NRes: 2, Writers: 2, Writes: 2, Stop: true, Runners: 1})
